@@ -2,8 +2,13 @@
 
 Tie to the code: REAL `DynamicObject` (3-D boxes) / `DynamicObject2D` (ROIs) lists are built from the case,
 `get_object_results` (or, for a slice, `PerceptionEvaluationManager.add_frame_result`) is run in-process
-and its ordered result list `[(estimate id, gt id | null)]` is compared with the Lean model
-`PEval.Matching.getObjectResults`.  The model receives the labels, frame ids, policy, mode, target labels,
+and its result `[(estimate id, gt id | null)]` is compared with the Lean model `PEval.Matching.getObjectResults`
+AS THE PROPERTY OBSERVES IT: the set of pairs and the set of unpaired estimates (neither C01 nor C02 orders the list).
+Where the real code pairs differently from the model, the outcome is accepted exactly when the Lean checker
+`Matching.checkTwoStage` accepts the real pairs as a run of the proved any-best relation `TwoStageRun`
+(`C02.certificate_sound`): the winner of an exact score tie is left open by C02 ("a partner scoring at least as well"),
+without ties the relation has one run (`C02.certificate_unique_of_no_ties`).
+The model receives the labels, frame ids, policy, mode, target labels,
 thresholds and the matrix of matching scores `MatchingMethod(est, gt).value` computed by the real matching
 classes and converted exactly (Fraction of the float), so all four modes and exact ties are covered without
 tolerance.  For small cases the model's score table is additionally compared cell by cell with the real
@@ -11,6 +16,14 @@ tolerance.  For small cases the model's score table is additionally compared cel
 
 The oracle is the property statement evaluated on the real output with independent references (geometry
 recomputed in exact rationals / by an own convex clipper, no use of the model).
+
+What is NOT judged (the statements have no error clause; `out_of_domain`): calls whose radius list has no entry for some
+target label, IoU thresholds outside [0, 1], ROI-less objects without uuid - whether, when and with which exception class
+the library rejects them is left to the library; such cases are counted as skipped.  Inside the quantifier an exception of
+the call is a failure ("the matcher pairs each estimate ..."), whatever its class.
+
+Only public names of /repo are used (`dataset_paths=[]` builds a manager without a dataset); set-up of a case runs outside the
+`try` of `run_impl`, so a harness failure is never reported as a verdict on the property.
 """
 from __future__ import annotations
 
@@ -60,8 +73,8 @@ RULE = (
     "seeded scenes of 0..8 (thorough: up to 30) estimates x ground truths, 3-D boxes (base_link/map) and 2-D ROIs "
     "(two cameras), labels car/bicycle/pedestrian/motorbike/truck/bus/unknown + FP-labelled ground truth, clusters of "
     "estimates around one ground truth, exact duplicates and symmetric offsets (exact score ties), 3 label policies, "
-    "4 matching modes (2-D: center distance, IoU2D), thresholds none / per-label list (incl. out-of-range and short "
-    "lists), detection vs FP validation, a slice through PerceptionEvaluationManager.add_frame_result; in 35 % of the "
+    "4 matching modes (2-D: center distance, IoU2D), thresholds none / per-label list (2 % out-of-range or short "
+    "lists: outside the quantifier, run but counted as skipped:out-of-domain), detection vs FP validation, a slice through PerceptionEvaluationManager.add_frame_result; in 35 % of the "
     "cases numeric type variants: the same radii / positions / sizes / velocities / confidences / ROI pixels / time "
     "stamps / point counts / ego pose / manager configuration numbers handed to the real code as int, np.float64, "
     "np.float32 (only values exact in single precision), np.int64, np.int32, in tuples, lists or ndarrays, a uniform "
@@ -87,9 +100,17 @@ TRUSTED = [
     "their geometric meaning is C06's subject, here only the radius gate is recomputed independently",
     "manager slice: the lists handed to the matcher are obtained by calling the real filter_objects with the manager's "
     "own filtering parameters (the filter itself is C10's subject)",
-    "Python object identity is mapped to list positions by the harness (id())",
+    "result objects are mapped to positions of the input lists by Python identity, else (a result type holding a copy) by equal "
+    "value: label, frame, geometry, uuid (`_locate`); the caller's own lists are compared by identity, order and content",
+    "certificate of another tie winner: the order of picks is proposed by the harness (compatible pairs by the label NAMES, each "
+    "group best score first); it is the Lean checker that decides (soundness proved, no completeness needed)",
 ]
 ASSUMPTIONS = [
+    "domain of the radius setting ('every per-label radius list or none'): one entry per target label, IoU thresholds inside "
+    "[0, 1]; other lists (and ROI-less objects without uuid) get no verdict from oracle or correspondence, whatever the library "
+    "does with them (raise any exception, eagerly or lazily, or return)",
+    "the result list is compared as a set of pairs plus a set of unpaired estimates; an outcome other than the model's is "
+    "accepted iff Lean's checkTwoStage accepts it as a run of the any-best relation (C02.certificate_sound)",
     "decision tables: Boolean and order atoms are treated as independent (over-approximation of the input space, sound for "
     "'table = model'); enum arguments (policy, matching mode) are enumerated over the members of the current source; "
     "an untranslatable source (histogram key table:untranslatable) leaves the correspondence as the only tie",
@@ -456,22 +477,27 @@ def _snapshot(objs: list) -> list:
     return snap
 
 
-_MANAGERS: Dict[str, Any] = {}
+_TMP: Dict[str, str] = {}
+
+
+def _tmp_root() -> str:
+    """ONE scratch directory per process for the `result_root_directory` of every configuration (removed at exit)"""
+    if "dir" not in _TMP:
+        import atexit
+        import shutil
+        import tempfile
+
+        _TMP["dir"] = tempfile.mkdtemp(prefix="peval_c01_")
+        atexit.register(shutil.rmtree, _TMP["dir"], True)
+    return _TMP["dir"]
 
 
 def _manager(case: dict):
-    """a real PerceptionEvaluationManager for the case's configuration (cached per configuration)"""
-    import json
-    import tempfile
-
+    """a NEW real PerceptionEvaluationManager for the case's configuration (no cache: a replayed case takes exactly the
+    path of the original run).  Public construction only: `dataset_paths=[]` makes the constructor load nothing (the
+    matcher needs no dataset); set-up errors propagate to the runner (infrastructure, not a verdict on the property)."""
     nv = _num(case)
     ctag = nv.get("cfg")
-    key = json.dumps([case["dim"], case["task_fp"], case["targets"], case["radii"], case["policy"], case.get("mframe", "base_link"),
-                      nv.get("radii"), nv.get("radii_form"), ctag, _family(case), case.get("uuid_first"), case.get("task")])
-    if key in _MANAGERS:
-        m = _MANAGERS[key]
-        m.frame_results.clear()
-        return m
     from perception_eval.config import PerceptionEvaluationConfig
     from perception_eval.manager import PerceptionEvaluationManager
 
@@ -505,20 +531,15 @@ def _manager(case: dict):
         # a scalar / one-element list is expanded by the library to one radius per target label
         d["max_matchable_radii"] = tr[0] if form == "scalar" and uniform else [tr[0]] if form == "single" and uniform else tr
     cfg = PerceptionEvaluationConfig(
-        dataset_paths=[str(core.REPO / "perception_eval" / "test" / "sample_data")], frame_id=frame,
-        result_root_directory=tempfile.mkdtemp(prefix="peval_c01_"), evaluation_config_dict=d,
+        dataset_paths=[], frame_id=frame, result_root_directory=_tmp_root(), evaluation_config_dict=d,
     )
-    # the manager's constructor loads the dataset named in the config; the matcher does not need it (and the sample
-    # data cannot be loaded for FP validation), so loading is switched off while the manager is constructed
-    from perception_eval.manager import _evaluation_manager_base as _base
+    m = PerceptionEvaluationManager(cfg)
+    try:  # the manager's visualizer opens a matplotlib figure that is never drawn here: release it
+        import matplotlib.pyplot as plt
 
-    orig = _base.load_all_datasets
-    _base.load_all_datasets = lambda *a, **k: []
-    try:
-        m = PerceptionEvaluationManager(cfg)
-    finally:
-        _base.load_all_datasets = orig
-    _MANAGERS[key] = m
+        plt.close("all")
+    except Exception:  # noqa: BLE001 - housekeeping only
+        pass
     return m
 
 
@@ -552,7 +573,37 @@ def _table_facts(case: dict, ests: list, gts: list, transforms) -> Tuple[list, l
     return vals, facts
 
 
+def _value_key(snap_entry: tuple) -> tuple:
+    """what an object IS for "nothing appears that was not in the input": label, frame, geometry, uuid (not its address)"""
+    return tuple(snap_entry[1:])
+
+
+def _locate(obj, objs: list, ids: Dict[int, int], snaps: list, used: set) -> int:
+    """position of a result's object in the input list.  The very input object (Python identity) when the result holds it;
+    otherwise - a result type that keeps a (defensive) copy is as good under "nothing appears that was not in the input" -
+    the first not yet used input object of equal value (label, frame, geometry, uuid); -1 = not an input object."""
+    k = ids.get(id(obj))
+    if k is not None:
+        used.add(k)
+        return k
+    try:
+        key = _value_key(_snapshot([obj])[0])
+    except Exception:  # noqa: BLE001 - not even an object of the input's kind
+        return -1
+    for k, sn in enumerate(snaps):
+        if k not in used and _value_key(sn) == key:
+            used.add(k)
+            STATS["results_mapped_by_value(not identity)"] += 1
+            return k
+    return -1
+
+
 def run_impl(case: dict) -> dict:
+    """Set-up (objects, configuration, manager, the harness' own helper calls) runs OUTSIDE the `try`: a failure there is an
+    infrastructure error of the harness and propagates to the runner.  Only the call the property is about
+    (`get_object_results` / `add_frame_result`) may produce `out["err"]`."""
+    import traceback
+
     M = _m()
     ests = build_objects(case, "ests")
     gts = build_objects(case, "gts")
@@ -562,65 +613,76 @@ def run_impl(case: dict) -> dict:
     ids_g = {id(o): k for k, o in enumerate(gts)}
     out: Dict[str, Any] = {}
     in_e, in_g = list(ests), list(gts)  # the objects the matcher receives (copied: the call must not change the lists)
-    try:
-        if case["kind"] == "manager":
-            from perception_eval.evaluation.result.perception_frame_config import (
-                CriticalObjectFilterConfig, PerceptionPassFailConfig,
-            )
+    res = None
+    if case["kind"] == "manager":
+        from perception_eval.evaluation.result.perception_frame_config import (
+            CriticalObjectFilterConfig, PerceptionPassFailConfig,
+        )
 
-            m = _manager(case)
-            cfg = m.evaluator_config
-            tl = list(case["targets"])
-            n = len(tl)
-            ctag = _num(case).get("cfg")
-            if case["dim"] == "3d":
-                crit = CriticalObjectFilterConfig(cfg, tl, max_x_position_list=[num_cast(1000.0, ctag)] * n,
-                                                  max_y_position_list=[num_cast(1000.0, ctag)] * n)
-                pf = PerceptionPassFailConfig(cfg, tl, matching_threshold_list=[num_cast(2.0, ctag)] * n)
-            else:
-                crit = CriticalObjectFilterConfig(cfg, tl)
-                pf = PerceptionPassFailConfig(cfg, tl, matching_threshold_list=[num_cast(0.5, ctag)] * n)
-            frame = M["FrameGroundTruth"](100, "0", gts, transforms=build_matrices(case))
-            # what the manager hands to the matcher: its own filter on both lists
-            in_e = M["objects_filter"].filter_objects(objects=list(ests), is_gt=False, transforms=frame.transforms, **m.filtering_params)
-            in_g = M["objects_filter"].filter_objects(objects=list(gts), is_gt=True, transforms=frame.transforms, **m.filtering_params)
-            fr = m.add_frame_result(100, frame, ests, crit, pf)
-            res = fr.object_results
-            out["frame_gt_untouched"] = [id(o) for o in frame.objects] == [s[0] for s in snap_g]
+        m = _manager(case)
+        cfg = m.evaluator_config
+        tl = list(case["targets"])
+        n = len(tl)
+        ctag = _num(case).get("cfg")
+        if case["dim"] == "3d":
+            crit = CriticalObjectFilterConfig(cfg, tl, max_x_position_list=[num_cast(1000.0, ctag)] * n,
+                                              max_y_position_list=[num_cast(1000.0, ctag)] * n)
+            pf = PerceptionPassFailConfig(cfg, tl, matching_threshold_list=[num_cast(2.0, ctag)] * n)
         else:
-            _mode, _cls = M["METHOD"][case["mode"]]
-            res = M["get_object_results"](
-                evaluation_task=_task(case), estimated_objects=ests, ground_truth_objects=gts,
-                target_labels=_targets(case), matching_label_policy=M["MatchingLabelPolicy"](case["policy"]),
-                matching_mode=_mode, matchable_thresholds=typed_radii(case), transforms=transforms,
-                **({"uuid_matching_first": bool(case["uuid_first"])} if "uuid_first" in case else {}),
-            )
+            crit = CriticalObjectFilterConfig(cfg, tl)
+            pf = PerceptionPassFailConfig(cfg, tl, matching_threshold_list=[num_cast(0.5, ctag)] * n)
+        frame = M["FrameGroundTruth"](100, "0", gts, transforms=build_matrices(case))
+        # what the manager hands to the matcher: its own (public) filter on both lists
+        in_e = M["objects_filter"].filter_objects(objects=list(ests), is_gt=False, transforms=frame.transforms, **m.filtering_params)
+        in_g = M["objects_filter"].filter_objects(objects=list(gts), is_gt=True, transforms=frame.transforms, **m.filtering_params)
+        try:
+            fr = m.add_frame_result(100, frame, ests, crit, pf)
+            res = list(fr.object_results)
+        except Exception as ex:  # the call under test raised
+            out["err"] = core.err_kind(ex)
+            out["trace"] = traceback.format_exc()[-700:]
+        # "the caller's lists are left untouched": the caller's FrameGroundTruth.objects is one of them (element identity + order)
+        out["frame_gt_untouched"] = [id(o) for o in frame.objects] == [s[0] for s in snap_g]
+    else:
+        _mode, _cls = M["METHOD"][case["mode"]]
+        kw = dict(
+            evaluation_task=_task(case), estimated_objects=ests, ground_truth_objects=gts,
+            target_labels=_targets(case), matching_label_policy=M["MatchingLabelPolicy"](case["policy"]),
+            matching_mode=_mode, matchable_thresholds=typed_radii(case), transforms=transforms,
+            **({"uuid_matching_first": bool(case["uuid_first"])} if "uuid_first" in case else {}),
+        )
+        try:
+            res = list(M["get_object_results"](**kw))
+        except Exception as ex:  # the call under test raised
+            out["err"] = core.err_kind(ex)
+            out["trace"] = traceback.format_exc()[-700:]
+    if res is not None:
         rl = []
+        used_e, used_g = set(), set()
         for r in res:
-            e = ids_e.get(id(r.estimated_object), -1)
-            g = None if r.ground_truth_object is None else ids_g.get(id(r.ground_truth_object), -1)
+            e = _locate(r.estimated_object, ests, ids_e, snap_e, used_e)
+            g = None if r.ground_truth_object is None else _locate(r.ground_truth_object, gts, ids_g, snap_g, used_g)
             rl.append([e, g])
         out["results"] = rl
-    except Exception as ex:
-        import traceback
-
-        out["err"] = core.err_kind(ex)
-        out["trace"] = traceback.format_exc()[-700:]
+    # the caller's two lists: same objects (identity), same order, same content
     out["untouched"] = _snapshot(ests) == snap_e and _snapshot(gts) == snap_g
     # content of the caller's two lists after the call, as positions in the lists before the call (compared with the heap
     # model MatchHeap.getObjectResultsH: lean/PEval/Model/MatchHeap.lean)
     out["after_e"] = [ids_e.get(id(o), -1) for o in ests]
     out["after_g"] = [ids_g.get(id(o), -1) for o in gts]
-    out["in_e"] = [ids_e[id(o)] for o in in_e]
-    out["in_g"] = [ids_g[id(o)] for o in in_g]
+    ue, ug = set(), set()
+    out["in_e"] = [_locate(o, ests, ids_e, snap_e, ue) for o in in_e]
+    out["in_g"] = [_locate(o, gts, ids_g, snap_g, ug) for o in in_g]
+    if -1 in out["in_e"] or -1 in out["in_g"]:
+        raise RuntimeError("harness: the manager's filter returned an object that is not an input object")
     if is_roiless(case):
         # no geometry, no matching score: the model's identity-based matchers (C11's) do not read `vals`
         out["vals"] = [["0"] * len(in_g) for _ in in_e]
         return out
     try:
         out["vals"], out["facts"] = _table_facts(case, in_e, in_g, transforms)
-    except Exception as ex:  # the real matching classes failed on this geometry: no model request possible
-        out["facts_err"] = core.err_kind(ex)
+    except Exception as ex:  # the real matching classes failed on this geometry in the harness' own second call: no model
+        out["facts_err"] = core.err_kind(ex)  # request and no C02 scan are possible (histogram key unobservable:table-facts)
     return out
 
 
@@ -635,7 +697,9 @@ def model_requests(case: dict, out: dict) -> list:
         return o["uuid"] if "uuid" in o else f"{which}{k}"
 
     tl = _family(case) == "traffic_light"
+    cert = _certificate(case, out)
     return [{
+        **({"cert": cert} if cert is not None else {}),
         "op": "matchx",
         "is2d": case["dim"] == "2d", "uuid_first": bool(case.get("uuid_first", False)),
         "est_tl": [tl] * len(E), "gt_tl": [tl] * len(G),
@@ -653,6 +717,40 @@ def model_requests(case: dict, out: dict) -> list:
         "gt_labels": [o["label"] for o in G], "gt_frames": [o["frame"] for o in G],
         "vals": out["vals"],
     }]
+
+
+def _names_compatible(policy: str, e_label: str, g_label: str) -> bool:
+    """the documented label rule on label names (the same rule the model applies)"""
+    if g_label == FP or policy == "ALLOW_ANY":
+        return True
+    if policy == "ALLOW_UNKNOWN":
+        return e_label == g_label or e_label == "unknown"
+    return e_label == g_label
+
+
+def _certificate(case: dict, out: dict) -> Optional[dict]:
+    """C02: "... a partner scoring AT LEAST as well" - the winner of an exact score tie is left open by the property, the
+    model fixes it (first best cell in row-major order).  The real pairs are therefore handed to the model as a certificate:
+    an ORDER in which they could have been picked (compatible pairs first, each group from the best score to the worst; picks
+    of one run never improve, and equal-score picks are disjoint, so any valid order is of this shape).  The Lean checker
+    `Matching.checkTwoStage` accepts it iff it is a run of the proved any-best relation `TwoStageRun`
+    (`C02.certificate_sound`); `compare` accepts an outcome that differs from the model's only if the checker does."""
+    if "results" not in out or "vals" not in out or is_roiless(case) or out_of_domain(case) is not None:
+        return None
+    pos_e = {k: i for i, k in enumerate(out["in_e"])}
+    pos_g = {k: i for i, k in enumerate(out["in_g"])}
+    maximize = case["mode"] in ("iou2d", "iou3d")
+    s1, s2 = [], []
+    for e, g in out["results"]:
+        if g is None:
+            continue
+        if e not in pos_e or g not in pos_g:
+            return None  # a foreign object: no certificate, the plain comparison reports it
+        i, j = pos_e[e], pos_g[g]
+        key = Fraction(out["vals"][i][j])
+        ok = _names_compatible(case["policy"], case["ests"][e]["label"], case["gts"][g]["label"])
+        (s1 if ok else s2).append((-key if maximize else key, i, j))
+    return {"s1": [[i, j] for _k, i, j in sorted(s1)], "s2": [[i, j] for _k, i, j in sorted(s2)]}
 
 
 def _near_low_precision_threshold(case: dict, out: dict) -> bool:
@@ -679,7 +777,8 @@ def _to_ids(out: dict, results: list) -> list:
 
 def _heap_mismatch(case: dict, out: dict, r: dict) -> Optional[str]:
     """the heap model of the list handling (the two .copy() calls, pops on the copies) against the real lists after the call;
-    direct calls only (through the manager the matcher's inputs are the filter's new lists)"""
+    direct calls only (through the manager the matcher's inputs are the filter's new lists).  "the caller's lists are left
+    untouched" is about the caller's list objects: positions of the very input objects, in order."""
     hp = r.get("heap")
     if hp is None or case["kind"] == "manager" or "after_e" not in out:
         return None
@@ -688,27 +787,52 @@ def _heap_mismatch(case: dict, out: dict, r: dict) -> Optional[str]:
     if m_e != out["after_e"] or m_g != out["after_g"]:
         return (f"caller's lists after the call differ: impl estimates {out['after_e']} ground truths {out['after_g']}, "
                 f"heap model estimates {m_e} ground truths {m_g}")
-    if hp.get("results") is not None and "results" in out:
-        m_r = [[e, None if g is None else g - nE] for e, g in hp["results"]]
-        if m_r != out["results"]:
-            return f"heap model results differ: impl {out['results']} heap model {m_r}"
     return None
+
+
+def _canon(results: list) -> Tuple[list, list]:
+    """a result list as the property observes it: the SET of pairs and the SET of unpaired estimates (C01/C02 state nothing
+    about the order of the returned list)"""
+    return (sorted((e, g) for e, g in results if g is not None), sorted(e for e, g in results if g is None))
 
 
 def compare(case: dict, out: dict, resps: list) -> Optional[str]:
     r = resps[0]
+    if out_of_domain(case) is not None:
+        # radius lists outside the quantifier ("every per-label radius list or none"): whether, when and with which exception
+        # the call rejects them is not part of C01/C02; counted as skipped
+        return "skip"
     hm = _heap_mismatch(case, out, r)
     if hm is not None:
         return hm
+    # raised vs returned (no exception class is named by the property or its observation points)
     if "err" in out or "err" in r:
-        if out.get("err") == r.get("err"):
+        if "err" in out and "err" in r:
             return None
-        return f"impl {out.get('err') or out.get('results')} != model {r.get('err') or r.get('results')}"
+        if "err" in out:
+            return f"the call raised {out['err']} on an input inside the quantifier, the model returns {r.get('results')}"
+        return f"the call returned {out.get('results')}, the model raises {r['err']} (harness: input should be inside the quantifier)"
     if _near_low_precision_threshold(case, out):
         return "skip"
     mres = _to_ids(out, r["results"])
-    if mres != out["results"]:
-        return f"result lists differ (model path: {r.get('path')}): impl {out['results']} model {mres}"
+    hp = r.get("heap")
+    if hp is not None and hp.get("results") is not None and case["kind"] != "manager":
+        nE = len(out["in_e"])
+        m_r = _to_ids(out, [[e, None if g is None else g - nE] for e, g in hp["results"]])
+        if _canon(m_r) != _canon(mres):
+            return f"heap model and index model differ: {m_r} vs {mres}"
+    if _canon(mres) != _canon(out["results"]):
+        # another outcome than the model's: admissible iff it is a run of the any-best relation (other winner of an exact
+        # tie; without ties the relation has one run, C02.certificate_unique_of_no_ties) leaving the same kind of leftovers
+        ok = False
+        if r.get("admits") is True:
+            left = sorted(out["in_e"][i] for i in r.get("admit_left", []))
+            got_pairs, got_left = _canon(out["results"])
+            ok = (got_left == ([] if case["task_fp"] else left)) and len({e for e, _ in got_pairs}) == len(got_pairs)
+        if not ok:
+            return (f"results differ (model path: {r.get('path')}; not a run of the documented any-best relation either: "
+                    f"admits={r.get('admits')}): impl {out['results']} model {mres}")
+        STATS["compare:other-tie-winner-admitted-by-certificate"] += 1
     want_path = expected_path(case, out)
     if r.get("path") != want_path:
         return f"dispatch differs: the model takes the {r.get('path')} path, the documented matcher for this kind of object is {want_path}"
@@ -856,38 +980,42 @@ def expected_path(case: dict, out: dict) -> str:
     return "geometric"
 
 
-def expected_error(case: dict, out: dict) -> Optional[str]:
-    """the documented rejections reachable through this interface (both early returns come first)"""
-    E = [case["ests"][k] for k in out["in_e"]]
-    G = [case["gts"][k] for k in out["in_g"]]
-    if not E or not G:
-        return None
+def out_of_domain(case: dict) -> Optional[str]:
+    """C01/C02 quantify over "every per-label radius list or none" and objects that carry geometry; their statements have no
+    error clause.  A call is OUTSIDE that domain - whatever the frames, labels and cells of the scene are - when
+      * the radius list has no entry for some target label (shorter than the target labels),
+      * an IoU mode is given a threshold outside [0, 1],
+      * ROI-less objects (C11's identity-based matchers) come without a uuid.
+    Whether the library rejects such a call, with which exception class, eagerly or only when a cell reaches the bad entry,
+    or tolerates it, is not the properties' business: oracle and correspondence make no claim (counted as skipped)."""
     if is_roiless(case):
-        # identity-based matchers: "uuid of estimation and ground truth must be set"
-        return "RuntimeError" if any(("uuid" in o and o["uuid"] is None) for o in E + G) else None
-    iou = case["mode"] in ("iou2d", "iou3d")
-    for e in E:
-        for g in G:
-            if e["frame"] != g["frame"]:
-                continue
-            t = label_threshold(case, g)
-            if t == "short":
-                return "IndexError"
-            if t is not None and iou and not (0.0 <= t <= 1.0):
-                return "AssertionError"
+        if any(("uuid" in o and o["uuid"] is None) for o in case["ests"] + case["gts"]):
+            return "roi-less-without-uuid"
+        return None
+    radii = case.get("radii")
+    if radii is None:
+        return None
+    if case["targets"] is not None and len(radii) < len(case["targets"]):
+        return "radius-list-shorter-than-target-labels"
+    if case["mode"] in ("iou2d", "iou3d") and any(not (0.0 <= float(t) <= 1.0) for t in radii):
+        return "iou-threshold-outside-unit-interval"
     return None
 
 
 # ----------------------------------------------------------------------------- oracle: the property itself
 
 def oracle(case: dict, out: dict) -> Optional[str]:
+    ood = out_of_domain(case)
+    if ood is not None:
+        STATS["oracle_no_claim:out-of-domain:" + ood] += 1
+        return None
     if "err" in out:
-        exp = expected_error(case, out)
-        if exp == out["err"]:
-            return None
-        return f"get_object_results raised {out['err']} (expected {'a result' if exp is None else exp}); trace: {out.get('trace', '')[-200:]}"
-    if expected_error(case, out) is not None:
-        return None  # an out-of-range threshold was tolerated: not covered by C01
+        # inside the quantifier the matcher "pairs each estimate ...": it has to return
+        call = "PerceptionEvaluationManager.add_frame_result" if case.get("kind") == "manager" else "get_object_results"
+        return (f"{call} raised {out['err']} on an input inside the property's quantifier (no result returned); "
+                f"trace: {str(out.get('trace', ''))[-200:]}")
+    if "results" not in out or "in_e" not in out:
+        return None  # nothing observed (cannot happen with this module's run_impl)
     if not out.get("untouched", True):
         return "the caller's lists were modified (object identity, order or content changed)"
     if out.get("frame_gt_untouched") is False:
@@ -1035,9 +1163,16 @@ def branches(case: dict, out: dict) -> List[str]:
         STATS["_table_noted"] = 1
         b.append(_table_note()[0])
     nE, nG = len(out.get("in_e", [])), len(out.get("in_g", []))
+    ood = out_of_domain(case)
+    if ood is not None:
+        b.append("skipped:out-of-domain:" + ood + (":raised" if "err" in out else ":returned"))
     if "err" in out:
-        b.append("err:" + out["err"])
+        b.append("err:" + str(out["err"]))
         return b
+    if "results" not in out:
+        return b + ["unobservable:results"]
+    if "facts_err" in out:
+        b.append("unobservable:table-facts")
     if nE == 0:
         return b + ["early:no-estimate", "trivial"]
     if nG == 0:
@@ -1047,13 +1182,15 @@ def branches(case: dict, out: dict) -> List[str]:
         unp = sum(1 for _, g in out["results"] if g is None)
         b.append("roi-less:leftover:" + ("none" if nE == len(out["results"]) - unp else "kept" if unp else "dropped"))
         return b
+    if "facts" not in out:
+        return b
     st = scene_stats(case, out)
     res = out["results"]
     pos_e = {k: i for i, k in enumerate(out["in_e"])}
     pos_g = {k: i for i, k in enumerate(out["in_g"])}
     s1 = s2 = 0
     for e, g in res:
-        if g is not None:
+        if g is not None and e in pos_e and g in pos_g:
             if out["facts"][pos_e[e]][pos_g[g]][2]:
                 s1 += 1
             else:
